@@ -248,7 +248,9 @@ Definition set_balancer (c : cstate) (s : svc) (o : option svcobj) (k : oracle) 
             let res2 := if released then ReprocessAll else res1 in
             if negb changed then Some {| oc_state := c'; oc_sync := res2; oc_write := None |}
             else
-              Some {| oc_state := c'; oc_sync := if k_write k then res2 else Error;
+              (* a failed write keeps the request to reprocess (fix F27): the reload retries this service too *)
+              Some {| oc_state := c'; oc_sync := if k_write k then res2
+                                                 else match res2 with ReprocessAll => ReprocessAll | _ => Error end;
                       oc_write := Some (cv_status v, cv_annot v) |}
         end
   end.
